@@ -210,6 +210,7 @@ type Chain struct {
 	failModule string
 
 	Violations []Violation
+	Flags      map[string]bool
 	Rec        *Recorder
 	// ExtensionFor builds the vote extension of an honest validator for the block just committed.
 	ExtensionFor func(c *Chain, ctx sdk.Context, v *ValKeys) []byte
@@ -235,7 +236,7 @@ func (c *Chain) TxIndex() int  { return c.txIndex }
 func NewChain(w *World, o AppOpts, monitors ...Monitor) *Chain {
 	h := &Hooks{}
 	a, cleanup := NewApp(o, h)
-	c := &Chain{W: w, App: a, Monitors: monitors, cleanup: cleanup, valsets: map[int64][]CometVal{}, pendingVotes: map[string]VoteSpec{}}
+	c := &Chain{W: w, App: a, Monitors: monitors, cleanup: cleanup, valsets: map[int64][]CometVal{}, pendingVotes: map[string]VoteSpec{}, Flags: map[string]bool{}}
 	h.chain = c
 	req := w.InitChainRequest(a)
 	res, err := a.InitChain(req)
